@@ -27,7 +27,7 @@ def build_driver():
     rc, o = sh(["gcc", "-m32", "-c", "-x", "assembler-with-cpp", "-I", os.path.join(REPO, "src/core"), src, "-o", obj])
     if rc != 0:
         return None, "the i386 assembly file does not assemble with gcc -m32:\n" + o[-2000:]
-    rc, o = sh(["gcc", "-m32", "-ffreestanding", "-nostdlib", "-static", "-fno-pie", "-no-pie", "-fno-stack-protector", "-O1", "-o", out + ".tmp", drv, obj])
+    rc, o = sh(["gcc", "-m32", "-msse", "-ffreestanding", "-nostdlib", "-static", "-fno-pie", "-no-pie", "-fno-stack-protector", "-O1", "-o", out + ".tmp", drv, obj])
     if rc != 0:
         raise InfraError("cannot link the i386 driver: " + o[-2000:])
     os.replace(out + ".tmp", out)
@@ -36,21 +36,24 @@ def build_driver():
 
 
 def run_cases(drv, cases):
-    """cases: list of (state40 canonical, first_round, [ebx, esi, edi, ebp]). Returns list of result dicts."""
+    """cases: list of (state40 canonical, first_round, [ebx, esi, edi, ebp, x87 control word, MXCSR]). Returns list of result dicts."""
     inp = b""
     for st, fr, regs in cases:
-        inp += ascon_ref.to_sliced32(st, "little") + struct.pack("<I", fr) + struct.pack("<4I", *regs)
+        regs = list(regs) + [0x037F, 0x1F80][len(regs) - 4:] if len(regs) < 6 else regs
+        inp += ascon_ref.to_sliced32(st, "little") + struct.pack("<I", fr) + struct.pack("<6I", *regs)
     p = subprocess.run([drv], input=inp, stdout=subprocess.PIPE, stderr=subprocess.PIPE, timeout=600)
     out = p.stdout
     res = []
     for i in range(len(cases)):
-        r = out[i * 64:(i + 1) * 64]
-        if len(r) < 64:
+        r = out[i * 80:(i + 1) * 80]
+        if len(r) < 80:
             res.append({"crashed": True, "rc": p.returncode})
             break
         regs = struct.unpack("<4I", r[40:56])
         delta, ok = struct.unpack("<iI", r[56:64])
-        res.append({"state": ascon_ref.from_sliced32(r[:40], "little"), "regs": list(regs), "esp_delta": delta, "guard_ok": ok})
+        tag, cw, eflags, mxcsr = struct.unpack("<4I", r[64:80])
+        res.append({"state": ascon_ref.from_sliced32(r[:40], "little"), "regs": list(regs), "esp_delta": delta, "guard_ok": ok,
+                    "x87_tag": tag, "x87_cw": cw, "eflags": eflags, "mxcsr": mxcsr})
     return res
 
 
@@ -63,7 +66,11 @@ def gen_cases(n, sd):
     pats = [bytes(40), b"\xff" * 40, bytes(range(40)), bytes([0x80] + [0] * 39), bytes([0] * 39 + [1])]
     for i in range(n):
         stt = pats[i % len(pats)] if i < 60 and i % 5 < len(pats) and i % 3 == 0 else bytes(r.getrandbits(8) for _ in range(40))
-        cases.append((stt, i % 12, [r.getrandbits(32) for _ in range(4)]))
+        # valid x87 control words (precision / rounding fields vary, all exceptions masked) and MXCSR values
+        # (rounding, FZ, DAZ vary, all exceptions masked): the routine must hand both back unchanged
+        cw = 0x007F | (r.choice([0, 2, 3]) << 8) | (r.getrandbits(2) << 10)
+        mx = 0x1F80 | (r.getrandbits(2) << 13) | (r.getrandbits(1) << 15) | (r.getrandbits(1) << 6)
+        cases.append((stt, i % 12, [r.getrandbits(32) for _ in range(4)] + [cw, mx]))
     return cases
 
 
@@ -79,7 +86,7 @@ def check(drv, cases):
             what = "the routine crashed (driver exit status %s)" % r.get("rc")
         elif r["state"] != ascon_ref.permute(stt, fr):
             what = "result differs from the reference permutation through the SLICED32 layout"
-        elif r["regs"] != regs:
+        elif r["regs"] != list(regs[:4]):
             names = ["ebx", "esi", "edi", "ebp"]
             bad = [names[i] for i in range(4) if r["regs"][i] != regs[i]]
             what = "callee-saved register(s) %s not restored" % ",".join(bad)
@@ -87,6 +94,14 @@ def check(drv, cases):
             what = "stack pointer off by %d after return" % r["esp_delta"]
         elif not r["guard_ok"]:
             what = "memory outside the 40-byte state was written"
+        elif r["x87_tag"] != 0xFFFF:
+            what = "x87 register stack not empty on return (tag word 0x%04x): MMX / x87 registers used without emms" % r["x87_tag"]
+        elif r["eflags"] & 0x400:
+            what = "direction flag set on return"
+        elif len(regs) >= 6 and r["x87_cw"] != (regs[4] | 0x40):
+            what = "x87 control word changed (0x%04x -> 0x%04x)" % (regs[4], r["x87_cw"])
+        elif len(regs) >= 6 and (r["mxcsr"] & 0xFFC0) != (regs[5] & 0xFFC0):
+            what = "MXCSR control bits changed (0x%04x -> 0x%04x)" % (regs[5], r["mxcsr"])
         if what:
             return {"file": FILE, "state": stt.hex(), "first_round": fr, "regs": regs, "what": what}, nt
     if len(res) < len(cases):
@@ -108,7 +123,7 @@ def run(ev, tier, seen, record):
     ev.samples.append({"_part": "i386 native", "state": cases[7][0].hex(), "first_round": cases[7][1], "planted_regs": cases[7][2]})
     if fail:
         # shrink: keep only the failing case, then try the all-zero state with the same round
-        for cand in ([(bytes(40), fail.get("first_round", 0), [1, 2, 3, 4])], ):
+        for cand in ([(bytes(40), fail.get("first_round", 0), [1, 2, 3, 4, 0x037F, 0x1F80])], ):
             f2, _ = check(drv, cand)
             if f2:
                 fail = f2
